@@ -1,6 +1,6 @@
 (* ConfNet.v — the net model of Model/Sim.v refines the message pool of Model/Conf.v.
 
-   For a bench of the plain fragment (scripts made of sends and queries, every model added), every step
+   For a bench of the plain fragment (scripts made of sends, queries and scheduling requests, every model added), every step
    of the net model (start of a handler / one op of a script / one delivery) either leaves the pool of
    the state unchanged up to order (a stutter) or picks one message c of the pool and replaces it by
    bench_react b c - logging the invocation, or performing the sink write when c is a sink message.
@@ -103,17 +103,46 @@ Definition NInv (s : state) : Prop :=
 Lemma key_cancelled_ext s s' : cancelled s' = cancelled s -> forall k, key_cancelled s' k = key_cancelled s k.
 Proof. intros E k. unfold key_cancelled. rewrite E. reflexivity. Qed.
 
+Lemma NInv_upd2 s s' t x' :
+  NInv s -> tasks s' = lupd (tasks s) t x' -> (forall k, key_cancelled s' k = false) ->
+  (forall f, tfr x' = Some f -> forallb cop_ok (frest f) = true) -> NInv s'.
+Proof.
+  intros [I1 I2] ET EC HF. split; [|exact EC].
+  intros t0 x0 f0 E0 F0. rewrite ET in E0. destruct (Nat.eq_dec t t0) as [<-|N].
+  - assert (L : t < length (tasks s)).
+    { rewrite <- (lupd_length (tasks s) t x'). apply nth_error_Some. rewrite E0. discriminate. }
+    rewrite nth_error_lupd_eq in E0 by exact L. injection E0 as <-. exact (HF _ F0).
+  - rewrite nth_error_lupd_ne in E0 by exact N. exact (I1 _ _ _ E0 F0).
+Qed.
+
 Lemma NInv_upd s s' t x' :
   NInv s -> tasks s' = lupd (tasks s) t x' -> cancelled s' = cancelled s ->
   (forall f, tfr x' = Some f -> forallb cop_ok (frest f) = true) -> NInv s'.
 Proof.
-  intros [I1 I2] ET EC HF. split.
-  - intros t0 x0 f0 E0 F0. rewrite ET in E0. destruct (Nat.eq_dec t t0) as [<-|N].
-    + assert (L : t < length (tasks s)).
-      { rewrite <- (lupd_length (tasks s) t x'). apply nth_error_Some. rewrite E0. discriminate. }
-      rewrite nth_error_lupd_eq in E0 by exact L. injection E0 as <-. exact (HF _ F0).
-    + rewrite nth_error_lupd_ne in E0 by exact N. exact (I1 _ _ _ E0 F0).
-  - intros k. rewrite (key_cancelled_ext _ _ EC). apply I2.
+  intros I ET EC HF. eapply NInv_upd2; [exact I | exact ET | | exact HF].
+  intros k. rewrite (key_cancelled_ext _ _ EC). destruct I as [_ I2]. apply I2.
+Qed.
+
+Lemma sched_request_cancelled s origin d mk keyed period chk s' code k :
+  sched_request s origin d mk keyed period chk = (s', code, k) ->
+  cancelled s' = cancelled s \/ cancelled s' = cancelled s ++ [false].
+Proof.
+  unfold sched_request.
+  destruct (chk && _); [intros H; injection H as <- <- <-; left; reflexivity|].
+  destruct (Z.leb _ _); [intros H; injection H as <- <- <-; left; reflexivity|].
+  destruct keyed; cbn; intros H; injection H as <- <- <-; cbn; [right | left]; reflexivity.
+Qed.
+
+Lemma key_cancelled_grow s s' :
+  (forall k, key_cancelled s k = false) ->
+  cancelled s' = cancelled s \/ cancelled s' = cancelled s ++ [false] ->
+  forall k, key_cancelled s' k = false.
+Proof.
+  intros H [E|E] k; [rewrite (key_cancelled_ext _ _ E); apply H|].
+  destruct k as [i|]; [|reflexivity]. unfold key_cancelled. rewrite E.
+  destruct (Nat.lt_ge_cases i (length (cancelled s))) as [L|L].
+  - rewrite nth_error_app1 by exact L. exact (H (Some i)).
+  - rewrite nth_error_app2 by exact L. destruct (i - length (cancelled s)) as [|[|j]]; reflexivity.
 Qed.
 
 (* ---- one step ---- *)
@@ -270,7 +299,27 @@ Proof.
       apply sim_stutter; [|rewrite EL; reflexivity|exact ESK]. rewrite H1, H2. apply Permutation_app_tail.
       unfold task_msgs. cbn [tinit tk tfr tset_tfr task_model]. rewrite TF. unfold frame_msgs.
       rewrite FP, FR, FR', FI, FP'. reflexivity. }
-  destruct o; try discriminate OKo; destruct (task_model x) as [mm|] eqn:TM; try discriminate H.
+  destruct (match o with OSched _ _ _ _ _ => true | _ => false end) eqn:IsSched.
+  { destruct o; try discriminate IsSched. destruct (task_model x) as [mm|] eqn:TM; [|discriminate].
+    destruct (sched_request _ _ _ _ _ _ _) as [[s1 code] k] eqn:ESR.
+    pose proof (sched_request_cancelled _ _ _ _ _ _ _ _ _ _ ESR) as ECN.
+    apply sched_request_frame in ESR. destruct ESR as (_ & _ & _ & _ & EL1 & _ & EB1 & _ & ET1 & ESK1 & _).
+    injection H as <-.
+    match goal with |- NInv ?s2 /\ _ => assert (ET : exists x2, tasks s2 = lupd (tasks s) t x2 /\ tinit x2 = tinit x /\
+                                            tk x2 = tk x /\ tfr x2 = Some (fset_frest f rest)) end.
+    { eexists. cbn. rewrite ET1. split; [reflexivity|]. destruct slot; destruct k; cbn; auto. }
+    destruct ET as (x2 & ET & TI2 & TK2 & TF2). split.
+    - eapply NInv_upd2; [exact I | exact ET | |].
+      + apply (key_cancelled_grow s); [destruct I as [_ I2]; exact I2 | exact ECN].
+      + rewrite TF2. intros f0 E0. injection E0 as <-. exact OKr.
+    - match goal with |- sim_res _ _ ?s2 => destruct (pool_tasks b s s2 t x x2 EX ET EB1) as [rs [H1 H2]] end.
+      apply sim_stutter.
+      + rewrite H1, H2. apply Permutation_app_tail. unfold task_msgs, task_model. rewrite TI2, TK2, TF2, TF.
+        unfold frame_msgs. cbn [fpend fin frest fset_frest]. rewrite FP, FR. unfold script_msgs, task_model.
+        cbn [flat_map op_msgs]. reflexivity.
+      + cbn. rewrite EL1. reflexivity.
+      + cbn. exact ESK1. }
+  destruct o; try discriminate OKo; try discriminate IsSched; destruct (task_model x) as [mm|] eqn:TM; try discriminate H.
   - destruct (nth_error (bmodels b) mm) as [sp|] eqn:ES; [|discriminate]. injection H as <-.
     eapply G; try reflexivity. unfold op_msgs. rewrite ES. reflexivity.
   - destruct (nth_error (bmodels b) mm) as [sp|] eqn:ES; [|discriminate]. injection H as <-.
